@@ -693,21 +693,25 @@ loop:
 				continue
 			}
 
-			deleteUntil := 0
+			// What is limited is the time a request takes to arrive. One that has
+			// arrived in full is not being read any more: how long its handler
+			// or its response takes is not ReadTimeout's business, and resetting
+			// it would throw away a response the client is waiting for.
+			var due []*Stream
+
 			for _, strm := range strms {
-				// the request is due if the startedAt time + maxRequestTime is in the past
-				isDue := time.Now().After(
-					strm.startedAt.Add(sc.maxRequestTime))
-				if !isDue {
+				// the table is in order of creation: the first stream that is
+				// not due ends the search
+				if !time.Now().After(strm.startedAt.Add(sc.maxRequestTime)) {
 					break
 				}
 
-				deleteUntil++
+				if !strm.responded {
+					due = append(due, strm)
+				}
 			}
 
-			for deleteUntil > 0 {
-				strm := strms[0]
-
+			for _, strm := range due {
 				if sc.debug {
 					sc.logger.Printf("Stream timed out: %d\n", strm.ID())
 				}
@@ -716,24 +720,25 @@ loop:
 				// set the state to closed in case it comes back to life later
 				strm.SetState(StreamStateClosed)
 				closeStream(strm)
-
-				deleteUntil--
 			}
 
-			if len(strms) != 0 && sc.maxRequestTime > 0 {
-				// the first in the stream list might have started with a PushPromise
-				strm := strms.GetFirstOf(FrameHeaders)
-				if strm != nil {
-					reqTimerArmed = true
-					// try to arm the timer
-					when := time.Until(strm.startedAt.Add(sc.maxRequestTime))
-					// if the time is negative or zero it triggers imm
-					sc.maxRequestTimer.Reset(when)
-
-					if sc.debug {
-						sc.logger.Printf("Next request will timeout in %f seconds\n", when.Seconds())
-					}
+			// Armed again for the oldest request that is still arriving, if
+			// there is one. The next stream to be created arms it otherwise.
+			for _, strm := range strms {
+				if strm.origType != FrameHeaders || strm.responded {
+					continue
 				}
+
+				reqTimerArmed = true
+				// if the time is negative or zero it triggers imm
+				when := time.Until(strm.startedAt.Add(sc.maxRequestTime))
+				sc.maxRequestTimer.Reset(when)
+
+				if sc.debug {
+					sc.logger.Printf("Next request will timeout in %f seconds\n", when.Seconds())
+				}
+
+				break
 			}
 
 			// A stream that timed out may have been the last one a GOAWAY
